@@ -4,15 +4,15 @@ every single-fault variant of its arguments: either fit() runs inside its object
 satisfy the fitter's preconditions and leaves a well-formed table, or it throws and leaves the table untouched."""
 import sys, os, time, copy, itertools
 from fractions import Fraction as Fr
-from tools import vlib, units, gotoexec as G, e3lib as E
+from tools import vlib, units, gotoexec as G, e3lib as E, tableprog as T
 import c14_exact as X14
 
 PROG = None
 def build():
-    e = units.fit_function()
-    prog = G.Program.compile(units.FIT_PRELUDE + e.text(None), vlib.workdir(), "fit")
-    params = {"fit": E.param_names(e.header, "fit")}
-    return prog, params, e
+    # fit() calls release() and (through its scope guard) relies on it when it fails: the unified unit that also holds the
+    # extracted release() is used (tools/tableprog.py)
+    prog, params, fns = T.build(vlib.workdir())
+    return prog, params, fns["fit"]
 
 def base_problem(nd):
     orders = [2, 1][:nd]; nks = [7, 5][:nd]
@@ -60,8 +60,7 @@ def run_case(args):
     tag = "fit() ndim=%d: %s" % (nd, label)
     try:
         prog, params = PROG
-        dom = X14.RatDom(); it = G.Interp(prog, dom); it.prog_params = params; log = []
-        X14.install_storage_hooks(it, log)
+        it, al = T.new_object(prog, params, units.cfitsio_constants(), T.Disk(), X14.RatDom())
         F = lambda q: G.FV(Fr(q), Fr(q))
         it.hooks["vp_is_sorted"] = lambda it_, a: all(a[0].obj.cells[i].num <= a[0].obj.cells[i + 1].num for i in range(a[0].off, a[1].off - 1))
         def h_max(it_, a):
@@ -93,9 +92,6 @@ def run_case(args):
             rd(outc, n, "output coefficients")
             calls.append(("glam", ndim_, mono)); return 0
         it.hooks["glamfit_complex"] = h_glam
-        for g in ("ndim",): it.set_global(g, 0)
-        for g in ("order", "vp_this_knots", "nknots", "extents", "naxes", "strides", "coefficients"): it.set_global(g, G.NULL)
-        it.set_global("vp_thrown", 0); it.set_global("vp_data_ptr", 0)
         orders_arg = pb.get("orders_arg", pb["orders"]); knots_arg = pb.get("knots_arg", pb["knots"])
         ndd = pb["nd"]
         data_i = it.array("data_i", [G.Ptr(it.array("idx%d" % d, list(pb["idx"][d])), 0) for d in range(ndd)])
@@ -112,7 +108,7 @@ def run_case(args):
         thrown = g("vp_thrown"); bad = []
         if must_throw:
             if not thrown: bad.append("inconsistent arguments were accepted (no exception)")
-            if g("ndim") != 0 or any(o.live for (k, o, n) in log if k == "allocate"): bad.append("the table was modified before the rejection")
+            if g("ndim") != 0 or al.live: bad.append("the table was modified before the rejection")
             if calls: bad.append("the fitter was entered before the rejection")
         else:
             if thrown: bad.append("a consistent problem was rejected")
@@ -123,7 +119,7 @@ def run_case(args):
                 if [(c[0], c[1], c[2], c[3], c[4], bool(c[5])) for c in got_pen] != want_pen: bad.append("penalty terms requested %s, expected %s" % (got_pen, want_pen))
                 gl = [c for c in calls if c[0] == "glam"]
                 if len(gl) != 1 or gl[0][1] != ndd or gl[0][2] != mono: bad.append("glamfit_complex call %s" % gl)
-                kp = g("vp_this_knots").obj.cells
+                kp = g("knots").obj.cells
                 for d in range(ndd):
                     o = pb["orders"][d]; nk = len(pb["knots"][d])
                     if kp[d].off != o or len(kp[d].obj.cells) != nk + 2 * o: bad.append("knot storage of dimension %d is not allocate(nknots+2*order)+order" % d)
